@@ -5,7 +5,7 @@ then rendered in one of its documented spellings; the abstract request is what t
 semantics (Spec) is fed, the rendered attribute is what the real macro sees.
 All random choices come from one `random.Random(seed)`.
 """
-import itertools, json, random
+import itertools, json, random, re
 
 # ------------------------------------------------------------------ leaf types (see PRELUDE)
 INTO_TYPES = ["A8", "B8", "X16", "X32"]          # type ids used by the Into model
@@ -448,9 +448,16 @@ def noise_field_meta(rng, trait, f, shape):
     return rng.choice(opts)
 
 
+NOISE_OVERRIDE = None      # C15: force the set of additional traits (None = use the caller's choice)
+
+
 def finalize_attrs(rng, td, noise=()):
     """Compose each position's metas into #[educe(...)] attributes: one list or several stacked
     attributes, other educed traits' attributes before/after, plain attributes interleaved."""
+    if NOISE_OVERRIDE is not None:
+        present = set(re.findall(r"(?:^|,)\s*([A-Z][A-Za-z]*)", ",".join(re.sub(r"\([^()]*(?:\([^()]*\)[^()]*)*\)", "", t) for t in td.traits)))
+        noise = [t for t in NOISE_OVERRIDE if t not in present and not (t in ("PartialEq", "Hash") and td.kind == "union")]
+        rng = random.Random(rng.random())          # the caller's stream must not depend on the noise
     if td.kind == "enum" and not td.variants:
         noise = [t for t in noise if t != "Debug"]     # Debug refuses a nameless empty enum by design
     for t in noise:
